@@ -62,7 +62,7 @@ impl Report {
 			}
 		}
 		for v in o.violations {
-			if self.violations.len() < 200 {
+			if self.violations.len() < 200 || std::env::var_os("HLMON_KEEP_GOING").is_some() {
 				self.violations.push(v);
 			}
 		}
@@ -168,7 +168,7 @@ pub fn par_run(
 					if start.elapsed().as_secs_f64() > cfg.max_seconds {
 						break;
 					}
-					if nviol.load(Ordering::Relaxed) > 40 {
+					if nviol.load(Ordering::Relaxed) > 40 && std::env::var_os("HLMON_KEEP_GOING").is_none() {
 						break;
 					}
 					let before = local.violations.len();
